@@ -335,7 +335,7 @@ class C26(core.Check):
                 for op in case['ops']:
                     del errs[:]
                     try:
-                        with core.time_limit(20):
+                        with core.time_limit(60):
                             s.execute(stmt(op))
                         out += [1, errs[0]] if errs else [0, 0]
                     except Exception as e:  # host exception escaping the session
